@@ -1,5 +1,345 @@
-import Plonk.Model.Prover
+/-
+  C06 — zero-knowledge masking (model level).
+
+  "Each proof masks the four wire polynomials with independent random degree-1 multiples of the
+  domain's vanishing polynomial and the permutation polynomial with a random degree-2 multiple, and
+  re-randomises the four quotient shares, drawing each of the 14 masking scalars exactly once from
+  the caller's RNG and no other randomness.  Hence every opening in a proof equals the unmasked
+  value plus the prescribed mask."
+
+  All theorems are about the model's own `blindPoly`, `splitQuotient`, `takeDraws`, `prove`
+  (`Plonk/Model/Prover.lean`); `toPoly p = Σ_i C (toF p[i]) X^i` (`Plonk/Proofs/PolyBridge.lean`).
+
+  What is proved, at full strength (no `_partial` theorem):
+  * `blinding_mask_form`, `wire_blinding`, `perm_blinding`, `opening_mask`: the mask form of
+    `blind_poly_with_blinders`, as polynomials and as evaluations, for ANY number of blinders
+    (the hypothesis "number of blinders ≤ domain size" turned out not to be needed).
+  * `split_quotient_mask_form`: the four quotient shares, their telescoping recombination, and the
+    exact failure condition of the slicing.
+  * `rng_draws`, `rng_prefix`, `draw_partition`: `prove` succeeds only with ≥ 14 draws, reports
+    `drawsUsed = 14`, reports `NotEnoughDraws` only with < 14 draws, its whole result (error or
+    proof) is a function of the first 14 draws reduced mod r, and those 14 draws are partitioned
+    into the six blinder groups `[0,2) [2,4) [4,6) [6,8) [8,11) [11,14)`.
+  * `proof_commitments_blinded`: about `prove` itself — the commitments `a b c d z t_low … t_fourth` of
+    every proof it outputs are `commit`s of `blindPoly … [b₀,b₁]`, …, `blindPoly perm [b₈,b₉,b₁₀]` and
+    of `splitQuotient n t b₁₁ b₁₂ b₁₃`, `b_i = draws[i] mod r`: all 14 scalars, one site each.
+  * `proof_openings_masked`: about `prove` itself — in every proof it outputs, the evaluations
+    `a b c d` at `z`, `a_w b_w d_w z_w` at `zω` are the unmasked interpolants' values plus
+    `(b_i + b_{i+1} x)(xⁿ − 1)` resp. `(b₈ + b₉x + b₁₀x²)(xⁿ − 1)` with `b_i = draws[i]`.
+
+  Forced hypothesis (benign): `0 < n` in the recombination of the quotient shares (with `n = 0`
+  the code's `sub0` finds empty slices and the blinders no longer telescope; `n` is a domain size).
+
+  Non-vacuity of the hypothesis `prove k c ds v3 = .ok tr`: the Lean kernel cannot evaluate the
+  Merlin/STROBE transcript inside `prove` ("deep recursion"), so no closed `example` of a successful
+  `prove` is given here; the instance `exK exC exDraws` below (4 gates, domain of size 4, identity
+  permutation) does return `.ok` under `#eval` (and the differential harness compares every such
+  run with the Rust prover).  What IS checked by the kernel on that instance: the failure
+  `prove exK exC [] = .error .notEnoughDraws`, and all stage-level examples.
+
+  Not covered here (needs a probabilistic model): that the masks make the openings uniformly
+  distributed; only the algebraic shape "unmasked value + prescribed mask, each scalar used once"
+  is established.
+-/
+import Plonk.Proofs.ProverMask
+
 namespace Plonk.Props.C06
-open Plonk
+open Plonk Plonk.ProverMask Polynomial
+
 theorem placeholder_consts : Generated.ADDED_BLINDING_DEGREE = 6 := by decide
+
+/-! ## 1. blinding of the wire and permutation polynomials -/
+
+/-- **Mask form of `blind_poly_with_blinders`.** For every domain returned by
+    `EvaluationDomain::new`, every value vector `w` and every blinder list `[b₀,…,b_k]`:
+    `blinded = interpolant(w) + (Σ_i b_i X^i)·(Xⁿ − 1)`, with at most `n + k + 1` coefficients. -/
+theorem blinding_mask_form (m : Nat) (d : Domain) (hd : Domain.new? m = some d) (w bs : List Nat) :
+    toPoly (blindPoly d w bs)
+      = toPoly (Poly.ofCoeffs (d.ifft w))
+        + (∑ i ∈ Finset.range bs.length, C (toF (bs.getD i 0)) * X ^ i) * (X ^ d.size - 1) ∧
+    (blindPoly d w bs).length ≤ d.size + bs.length := by
+  have h := Domain.new?_WF m d hd
+  exact ⟨by rw [blindPoly_mask_form d h, toPoly_eq_sum bs], blindPoly_length_le d h w bs⟩
+
+/-- a domain of size 4 and a concrete blinding: the two blinders end up as the two top coefficients
+    and are subtracted from the two lowest ones -/
+example : (Domain.new? 4).map (fun d => blindPoly d [3, 1, 4, 1] [5, 6])
+    = (Domain.new? 4).map (fun d =>
+        let u := Poly.ofCoeffs (d.ifft [3, 1, 4, 1])
+        [fsub (u.getD 0 0) 5, fsub (u.getD 1 0) 6, u.getD 2 0, u.getD 3 0, 5, 6]) := by
+  decide +kernel
+
+/-- **Wire polynomials** (two blinders): the mask is the degree-1 multiple `(b₁ + b₂X)(Xⁿ − 1)` of
+    the vanishing polynomial, and the blinded polynomial still takes the wire values on the
+    domain. -/
+theorem wire_blinding (m : Nat) (d : Domain) (hd : Domain.new? m = some d) (w : List Nat)
+    (b1 b2 : Nat) :
+    toPoly (blindPoly d w [b1, b2])
+      = toPoly (Poly.ofCoeffs (d.ifft w)) + (C (toF b1) + C (toF b2) * X) * (X ^ d.size - 1) ∧
+    (C (toF b1) + C (toF b2) * X : F[X]).natDegree ≤ 1 ∧
+    (blindPoly d w [b1, b2]).length ≤ d.size + 2 ∧
+    (w.length = d.size → ∀ i, i < d.size →
+      (toPoly (blindPoly d w [b1, b2])).eval (toF d.groupGen ^ i) = toF (w.getD i 0)) := by
+  have h := Domain.new?_WF m d hd
+  refine ⟨?_, ?_, blindPoly_length_le d h w _, fun hw i hi => blindPoly_interpolates d h w _ hw i hi⟩
+  · rw [blindPoly_mask_form d h]; simp only [toPoly_cons, toPoly_nil]; ring
+  · have e : (C (toF b1) + C (toF b2) * X : F[X]) = toPoly [b1, b2] := by
+      simp only [toPoly_cons, toPoly_nil]; ring
+    have := natDegree_toPoly_lt [b1, b2] (by simp)
+    rw [e]
+    simp only [List.length_cons, List.length_nil] at this
+    omega
+
+example : ∃ d, Domain.new? 4 = some d ∧ ([3, 1, 4, 1] : List Nat).length = d.size := by
+  obtain ⟨d, hd⟩ : ∃ d, Domain.new? 4 = some d := Option.isSome_iff_exists.mp (by decide +kernel)
+  refine ⟨d, hd, ?_⟩
+  have : (Domain.new? 4).map (·.size) = some 4 := by decide +kernel
+  rw [hd] at this
+  simpa using (Option.some.inj this).symm
+
+/-- **Permutation polynomial** (three blinders): mask `(b₁ + b₂X + b₃X²)(Xⁿ − 1)`. -/
+theorem perm_blinding (m : Nat) (d : Domain) (hd : Domain.new? m = some d) (w : List Nat)
+    (b1 b2 b3 : Nat) :
+    toPoly (blindPoly d w [b1, b2, b3])
+      = toPoly (Poly.ofCoeffs (d.ifft w))
+        + (C (toF b1) + C (toF b2) * X + C (toF b3) * X ^ 2) * (X ^ d.size - 1) ∧
+    (C (toF b1) + C (toF b2) * X + C (toF b3) * X ^ 2 : F[X]).natDegree ≤ 2 ∧
+    (blindPoly d w [b1, b2, b3]).length ≤ d.size + 3 ∧
+    (w.length = d.size → ∀ i, i < d.size →
+      (toPoly (blindPoly d w [b1, b2, b3])).eval (toF d.groupGen ^ i) = toF (w.getD i 0)) := by
+  have h := Domain.new?_WF m d hd
+  refine ⟨?_, ?_, blindPoly_length_le d h w _, fun hw i hi => blindPoly_interpolates d h w _ hw i hi⟩
+  · rw [blindPoly_mask_form d h]; simp only [toPoly_cons, toPoly_nil]; ring
+  · have e : (C (toF b1) + C (toF b2) * X + C (toF b3) * X ^ 2 : F[X]) = toPoly [b1, b2, b3] := by
+      simp only [toPoly_cons, toPoly_nil]; ring
+    have := natDegree_toPoly_lt [b1, b2, b3] (by simp)
+    rw [e]
+    simp only [List.length_cons, List.length_nil] at this
+    omega
+
+example : (Domain.new? 4).map (fun d => (blindPoly d [1, 5, 25, 125] [7, 8, 9]).drop 4)
+    = some [7, 8, 9] := by decide +kernel
+
+/-- **Every opening of a blinded polynomial equals the unmasked value plus the mask**
+    `(Σ_i b_i zⁱ)(zⁿ − 1)` (values of the model's own `Poly.evaluate`). -/
+theorem opening_mask (m : Nat) (d : Domain) (hd : Domain.new? m = some d) (w bs : List Nat)
+    (z : Nat) :
+    toF (Poly.evaluate (blindPoly d w bs) z)
+      = toF (Poly.evaluate (Poly.ofCoeffs (d.ifft w)) z)
+        + (∑ i ∈ Finset.range bs.length, toF (bs.getD i 0) * toF z ^ i) * (toF z ^ d.size - 1) := by
+  rw [blindPoly_eval d (Domain.new?_WF m d hd), toPoly_eq_sum]
+  simp [eval_finsetSum]
+
+example : (Domain.new? 4).map (fun d => fsub (Poly.evaluate (blindPoly d [3, 1, 4, 1] [5, 6]) 2)
+      (Poly.evaluate (Poly.ofCoeffs (d.ifft [3, 1, 4, 1])) 2)) = some ((5 + 6 * 2) * (2 ^ 4 - 1)) := by
+  decide +kernel
+
+/-! ## 2. re-randomised split of the quotient -/
+
+/-- **Quotient shares.** `splitQuotient` fails exactly when `t` has at most `3n` coefficients (the
+    Rust slicing `t_poly[3n..]` / `t_fourth_vec[0]` panics); otherwise each share is its slice plus
+    its mask `+b₁₂Xⁿ`, `−b₁₂ + b₁₃Xⁿ`, `−b₁₃ + b₁₄Xⁿ`, `−b₁₄`, the shares have at most `n + 1`
+    (resp. `|t| − 3n`) coefficients, and — the blinders telescope — they recombine to `t`. -/
+theorem split_quotient_mask_form (n : Nat) (t : Poly) (b12 b13 b14 : Nat) :
+    (splitQuotient n t b12 b13 b14 = none ↔ t.length ≤ 3 * n) ∧
+    ∀ tl tm th tf, splitQuotient n t b12 b13 b14 = some (tl, tm, th, tf) → 0 < n →
+      toPoly tl = toPoly (t.take n) + C (toF b12) * X ^ n ∧
+      toPoly tm = toPoly ((t.drop n).take n) - C (toF b12) + C (toF b13) * X ^ n ∧
+      toPoly th = toPoly ((t.drop (2 * n)).take n) - C (toF b13) + C (toF b14) * X ^ n ∧
+      toPoly tf = toPoly (t.drop (3 * n)) - C (toF b14) ∧
+      toPoly (t.take n) + X ^ n * toPoly ((t.drop n).take n)
+        + X ^ (2 * n) * toPoly ((t.drop (2 * n)).take n) + X ^ (3 * n) * toPoly (t.drop (3 * n))
+        = toPoly t ∧
+      toPoly tl + X ^ n * toPoly tm + X ^ (2 * n) * toPoly th + X ^ (3 * n) * toPoly tf = toPoly t ∧
+      tl.length ≤ n + 1 ∧ tm.length ≤ n + 1 ∧ th.length ≤ n + 1 ∧ tf.length ≤ t.length - 3 * n := by
+  refine ⟨splitQuotient_none_iff n t b12 b13 b14, fun tl tm th tf h hn => ?_⟩
+  obtain ⟨hlen, h1, h2, h3, h4⟩ := splitQuotient_mask_form hn h
+  obtain ⟨l1, l2, l3, l4⟩ := splitQuotient_lengths h
+  exact ⟨h1, h2, h3, h4, slices_recombine t n (by omega), split_recombine hn h, l1, l2, l3, l4⟩
+
+example : splitQuotient 4 [1, 2, 3, 4, 5, 6, 7, 8, 9, 10, 11, 12, 13, 14] 21 22 23
+    = some ([1, 2, 3, 4, 21], [fsub 5 21, 6, 7, 8, 22], [fsub 9 22, 10, 11, 12, 23], [fsub 13 23, 14])
+    ∧ 0 < 4 := by
+  decide +kernel
+
+example : splitQuotient 4 [1, 2, 3, 4, 5, 6, 7, 8, 9, 10, 11, 12] 21 22 23 = none := by
+  decide +kernel
+
+/-! ## 3. the 14 masking scalars and the caller's RNG -/
+
+/-- the instance used for the examples about `prove`: 4 gates without selectors, 16 distinct
+    witnesses, identity permutation, domain of size 4 -/
+def exC : Composer :=
+  { gates := #[{a := 0, b := 1, c := 2, d := 3}, {a := 4, b := 5, c := 6, d := 7},
+               {a := 8, b := 9, c := 10, d := 11}, {a := 12, b := 13, c := 14, d := 15}],
+    wit := #[3, 1, 4, 1, 5, 9, 2, 6, 5, 3, 5, 8, 9, 7, 9, 3] }
+
+def exSigma : Array Poly := #[[0, 1], [0, Generated.K1], [0, Generated.K2], [0, Generated.K3]]
+
+def exK : PKey :=
+  match Domain.new? 32 with
+  | none => default
+  | some d8 =>
+    { n := 4, constraints := 4, label := [], sel := #[], sigma := exSigma, vk := default,
+      piIndexes := [], x := 5, g := .inf, ckLen := 64, lay := exC,
+      selE := #[], sigE8 := exSigma.map fun p => (d8.cosetFft p).toArray,
+      linE := (d8.cosetFft [0, 1]).toArray, vh := (d8.vanishingOverCoset 4).toArray }
+
+def exDraws : List Nat := [11, 12, 13, 14, 15, 16, 17, 18, 19, 20, 21, 22, 23, 24]
+
+/-- **RNG draws.** A successful `prove` has consumed exactly the 14 masking scalars (it needs at
+    least 14 draws and reports `drawsUsed = 14`), and `NotEnoughDraws` is reported only when fewer
+    than 14 draws are available. -/
+theorem rng_draws (k : PKey) (c : Composer) (ds : List Nat) (v3 : Bool) :
+    (∀ tr, prove k c ds v3 = .ok tr → 14 ≤ ds.length ∧ tr.drawsUsed = 14) ∧
+    (prove k c ds v3 = .error .notEnoughDraws → ds.length < 14) :=
+  ⟨fun _ h => ⟨prove_ok_reads h, prove_ok_drawsUsed h⟩, prove_notEnoughDraws_lt⟩
+
+/-- the failure branch is reachable (kernel-checked on the domain-of-size-4 instance) -/
+example : prove exK exC [] true = .error .notEnoughDraws := by
+  have : (match prove exK exC [] true with | .error .notEnoughDraws => true | _ => false) = true := by
+    decide +kernel
+  split at this
+  · assumption
+  · cases this
+
+/-- **No other randomness.** The whole result of `prove` (proof, challenges or error) is a function
+    of the first 14 draws reduced mod r: extra draws are never read. -/
+theorem rng_prefix (k : PKey) (c : Composer) (v3 : Bool) :
+    (∀ ds ds' : List Nat, 14 ≤ ds.length → 14 ≤ ds'.length →
+      (ds.take 14).map (· % R) = (ds'.take 14).map (· % R) → prove k c ds v3 = prove k c ds' v3) ∧
+    (∀ ds extra : List Nat, ds.length = 14 → prove k c (ds ++ extra) v3 = prove k c ds v3) :=
+  ⟨fun ds ds' => prove_first_14 k c v3 ds ds', fun ds extra => prove_append k c v3 ds extra⟩
+
+example : 14 ≤ exDraws.length ∧ 14 ≤ (exDraws ++ [99, 100]).length ∧
+    (exDraws.take 14).map (· % R) = ((exDraws ++ [99, 100]).take 14).map (· % R) := by decide +kernel
+
+/-- **Each scalar exactly once.** The three reads of `prove` (`takeDraws 8`, `3`, `3`) succeed
+    exactly on the first 14 draws, which they partition; the blinder lists handed to the blinding
+    sites (`a`: `wb.take 2`, `b`: `(wb.drop 2).take 2`, `c`, `d`, `z`: `zb`, quotient: `tb[0..3)`)
+    are the consecutive slices `[0,2) [2,4) [4,6) [6,8) [8,11) [11,14)` of the draw list. -/
+theorem draw_partition (ds : List Nat) (h : 14 ≤ ds.length) :
+    let wb := (ds.take 8).map (· % R)
+    let zb := ((ds.drop 8).take 3).map (· % R)
+    let tb := ((ds.drop 11).take 3).map (· % R)
+    takeDraws 8 ds = some (wb, ds.drop 8) ∧
+    takeDraws 3 (ds.drop 8) = some (zb, ds.drop 11) ∧
+    takeDraws 3 (ds.drop 11) = some (tb, ds.drop 14) ∧
+    wb.take 2 = [ds.getD 0 0 % R, ds.getD 1 0 % R] ∧
+    (wb.drop 2).take 2 = [ds.getD 2 0 % R, ds.getD 3 0 % R] ∧
+    (wb.drop 4).take 2 = [ds.getD 4 0 % R, ds.getD 5 0 % R] ∧
+    (wb.drop 6).take 2 = [ds.getD 6 0 % R, ds.getD 7 0 % R] ∧
+    zb = [ds.getD 8 0 % R, ds.getD 9 0 % R, ds.getD 10 0 % R] ∧
+    tb.getD 0 0 = ds.getD 11 0 % R ∧ tb.getD 1 0 = ds.getD 12 0 % R ∧
+    tb.getD 2 0 = ds.getD 13 0 % R ∧
+    ds.take 14 = ds.take 2 ++ (ds.drop 2).take 2 ++ (ds.drop 4).take 2 ++ (ds.drop 6).take 2
+                  ++ (ds.drop 8).take 3 ++ (ds.drop 11).take 3 := by
+  obtain ⟨h8, h3, h3b⟩ := takeDraws_stages ds h
+  obtain ⟨s1, s2, s3, s4, s5⟩ := draw_sites ds
+  have t0 := take_drop_two ds 0 (by omega)
+  rw [List.drop_zero] at t0
+  refine ⟨h8, h3, h3b, ?_, ?_, ?_, ?_, ?_, ?_, ?_, ?_, s5⟩
+  · rw [s1, t0]; rfl
+  · rw [s2, take_drop_two ds 2 (by omega)]; rfl
+  · rw [s3, take_drop_two ds 4 (by omega)]; rfl
+  · rw [s4, take_drop_two ds 6 (by omega)]; rfl
+  · rw [take_drop_three ds 8 (by omega)]; rfl
+  · exact getD_map_mod_take_drop ds 11 0 (by omega) (by omega)
+  · exact getD_map_mod_take_drop ds 11 1 (by omega) (by omega)
+  · exact getD_map_mod_take_drop ds 11 2 (by omega) (by omega)
+
+example : 14 ≤ exDraws.length := by decide
+
+/-- with fewer than 14 draws one of the three reads fails -/
+theorem draw_shortage (ds : List Nat) :
+    (takeDraws 8 ds = none ∨
+      (∃ wb d1, takeDraws 8 ds = some (wb, d1) ∧
+        (takeDraws 3 d1 = none ∨ ∃ zb d2, takeDraws 3 d1 = some (zb, d2) ∧ takeDraws 3 d2 = none)))
+      ↔ ds.length < 14 := by
+  constructor
+  · exact takeDraws_fail_lt
+  · intro h
+    rcases h8 : takeDraws 8 ds with _ | ⟨wb, d1⟩
+    · exact Or.inl rfl
+    refine Or.inr ⟨wb, d1, rfl, ?_⟩
+    rcases h3 : takeDraws 3 d1 with _ | ⟨zb, d2⟩
+    · exact Or.inl rfl
+    refine Or.inr ⟨zb, d2, rfl, ?_⟩
+    rcases h3b : takeDraws 3 d2 with _ | ⟨tb, d3⟩
+    · rfl
+    · have := (takeDraws_stages_inv h8 h3 h3b).1; omega
+
+example : takeDraws 8 (exDraws.take 9) = some ((exDraws.take 8).map (· % R), [19]) ∧
+    takeDraws 3 [19] = none := by decide +kernel
+
+/-! ## 4. the openings of a proof -/
+
+/-- **Every opening in a proof equals the unmasked value plus the prescribed mask.**  If `prove`
+    returns a proof then, with `d` the proving domain (`n = d.size`), `z` the evaluation challenge,
+    `u_w` the unmasked interpolant `ifft w` of a wire column `w` (resp. of the permutation vector
+    `perm` computed from the transcript's `β, γ`) and `b_i = draws[i]`:
+    `a(z) = u_a(z) + (b₀ + b₁z)(zⁿ − 1)`, …, `d(z) = u_d(z) + (b₆ + b₇z)(zⁿ − 1)`, the same at `zω`
+    for `a_w, b_w, d_w`, and `z_w = u_perm(zω) + (b₈ + b₉zω + b₁₀(zω)²)((zω)ⁿ − 1)`. -/
+theorem proof_openings_masked (k : PKey) (c : Composer) (ds : List Nat) (v3 : Bool)
+    (tr : ProveTrace) (h : prove k c ds v3 = .ok tr) :
+    ∃ d perm, Domain.new? k.constraints = some d ∧
+      permVec d.size d.elements (wireCol k c (·.a)) (wireCol k c (·.b)) (wireCol k c (·.c))
+        (wireCol k c (·.d)) ((List.range 4).map fun i => d.fft (k.sigma.getD i []))
+        tr.ch.beta tr.ch.gamma = some perm ∧
+      let n := d.size
+      let z : F := toF tr.ch.z
+      let zw : F := toF tr.ch.z * toF d.groupGen
+      let u (w : List Nat) (x : F) : F := (toPoly (Poly.ofCoeffs (d.ifft w))).eval x
+      let b (i : Nat) : Nat := ds.getD i 0
+      toF tr.proof.ev.a = u (wireCol k c (·.a)) z + mask2 n (b 0) (b 1) z ∧
+      toF tr.proof.ev.b = u (wireCol k c (·.b)) z + mask2 n (b 2) (b 3) z ∧
+      toF tr.proof.ev.c = u (wireCol k c (·.c)) z + mask2 n (b 4) (b 5) z ∧
+      toF tr.proof.ev.d = u (wireCol k c (·.d)) z + mask2 n (b 6) (b 7) z ∧
+      toF tr.proof.ev.aw = u (wireCol k c (·.a)) zw + mask2 n (b 0) (b 1) zw ∧
+      toF tr.proof.ev.bw = u (wireCol k c (·.b)) zw + mask2 n (b 2) (b 3) zw ∧
+      toF tr.proof.ev.dw = u (wireCol k c (·.d)) zw + mask2 n (b 6) (b 7) zw ∧
+      toF tr.proof.ev.z = u perm zw + mask3 n (b 8) (b 9) (b 10) zw :=
+  prove_openings_masked h
+
+/-- **The commitments of a proof are commitments to the blinded polynomials**, and all 14 draws
+    `b_i = draws[i] mod r` are used, each at exactly one site: `b₀b₁ | b₂b₃ | b₄b₅ | b₆b₇` blind the wire
+    polynomials `a b c d`, `b₈b₉b₁₀` the permutation polynomial, `b₁₁b₁₂b₁₃` re-randomise the
+    quotient shares (`t` is the quotient computed by the prover; the forms of all these polynomials
+    are given by `wire_blinding`, `perm_blinding`, `split_quotient_mask_form`). -/
+theorem proof_commitments_blinded (k : PKey) (c : Composer) (ds : List Nat) (v3 : Bool)
+    (tr : ProveTrace) (h : prove k c ds v3 = .ok tr) :
+    ∃ d perm, Domain.new? k.constraints = some d ∧
+      permVec d.size d.elements (wireCol k c (·.a)) (wireCol k c (·.b)) (wireCol k c (·.c))
+        (wireCol k c (·.d)) ((List.range 4).map fun i => d.fft (k.sigma.getD i []))
+        tr.ch.beta tr.ch.gamma = some perm ∧
+      let b (i : Nat) : Nat := ds.getD i 0 % R
+      commit4 k (blindPoly d (wireCol k c (·.a)) [b 0, b 1])
+          (blindPoly d (wireCol k c (·.b)) [b 2, b 3])
+          (blindPoly d (wireCol k c (·.c)) [b 4, b 5])
+          (blindPoly d (wireCol k c (·.d)) [b 6, b 7])
+        = .ok (tr.proof.aC, tr.proof.bC, tr.proof.cC, tr.proof.dC) ∧
+      commitT k (blindPoly d perm [b 8, b 9, b 10]) = .ok tr.proof.zC ∧
+      ∃ t tl tm th tf, t.length ≤ 7 * d.size ∧
+        splitQuotient d.size t (b 11) (b 12) (b 13) = some (tl, tm, th, tf) ∧
+        commit4 k tl tm th tf
+          = .ok (tr.proof.tLow, tr.proof.tMid, tr.proof.tHigh, tr.proof.tFourth) :=
+  prove_commitments_blinded h
+
+/-- stage-level instance on the size-4 domain: the four blinded wire polynomials of `exC` with the
+    draws `exDraws` are accepted by `commit4` under the key `exK` -/
+example : (Domain.new? exK.constraints).map (fun d =>
+      match commit4 exK (blindPoly d (wireCol exK exC (·.a)) [11, 12])
+          (blindPoly d (wireCol exK exC (·.b)) [13, 14]) (blindPoly d (wireCol exK exC (·.c)) [15, 16])
+          (blindPoly d (wireCol exK exC (·.d)) [17, 18]) with
+      | .ok _ => true | .error _ => false) = some true := by decide +kernel
+
+/-- the masks of `proof_openings_masked`, spelled out -/
+theorem mask_def (n b1 b2 b3 : Nat) (x : F) :
+    mask2 n b1 b2 x = (toF b1 + toF b2 * x) * (x ^ n - 1) ∧
+    mask3 n b1 b2 b3 x = (toF b1 + toF b2 * x + toF b3 * x ^ 2) * (x ^ n - 1) := ⟨rfl, rfl⟩
+
+/-- the wire columns of the instance are the padded witness columns (size-4 domain, non-trivial) -/
+example : wireCol exK exC (·.a) = [3, 5, 5, 9] ∧ wireCol exK exC (·.d) = [1, 6, 8, 3] ∧
+    (Domain.new? exK.constraints).map (·.size) = some 4 := by decide +kernel
+
 end Plonk.Props.C06
